@@ -6,8 +6,8 @@ scripts/run_seeded.sh > /var/tmp/seeded_final.out 2>&1
 python3 - <<'PY'
 import json,re,os
 first={}
-if os.path.exists('/var/tmp/round3.tsv'):
-    for l in open('/var/tmp/round3.tsv'):
+if os.path.exists('/verif/seeded/ROUND3_first_run.tsv'):
+    for l in open('/verif/seeded/ROUND3_first_run.tsv'):
         p=l.rstrip('\n').split('\t')
         if len(p)>=2: first[p[0]]=p[1]
 for line in open('/var/tmp/seeded_final.out'):
